@@ -5,7 +5,7 @@ theorems, which correspondence slices and monitor streams decide it."""
 PROPS = {
     "C01": {
         "title": "A machine never executes two tasks at once",
-        "lean": ["TopsimProps.C02", "TopsimProps.SysSafety", "TopsimProofs.Bridge.Queries", "TopsimProps.L3"],
+        "lean": ["TopsimProps.C02", "TopsimProps.SysSafety", "TopsimProofs.Bridge.Queries", "TopsimProps.L3", "TopsimProps.C01Intervals"],
         "streams": [("default", 24, 300), ("adversary", 24, 400), ("chaotic", 24, 400), ("clusterops", 30, 600), ("big", 6, 80)],
         "monitor": ["C01"],
         "files": ["topsim/core/scheduler.py", "topsim/core/cluster.py", "topsim/core/task.py"],
@@ -13,7 +13,7 @@ PROPS = {
     "C02": {
         "title": "Every machine is in exactly one resource pool; counts are true",
         "lean": ["TopsimProps.C02", "TopsimProps.SysSafety", "TopsimProps.L3"],
-        "streams": [("default", 24, 300), ("adversary", 16, 300), ("chaotic", 24, 400), ("clusterops", 40, 1200), ("big", 6, 80), ("units", 6, 80), ("batch", 12, 200)],
+        "streams": [("default", 24, 300), ("adversary", 16, 300), ("chaotic", 24, 400), ("clusterops", 40, 1200), ("big", 6, 80), ("units", 6, 80), ("batch", 32, 300)],
         "monitor": ["C02"],
     },
     "C03": {
@@ -45,7 +45,7 @@ PROPS = {
     "C07": {
         "title": "Buffer space is conserved and never over- or under-flows",
         "lean": ["TopsimProps.C07", "TopsimProofs.Bridge.BufferArith", "TopsimProofs.Bridge.TierArith", "TopsimProofs.Bridge.Sched", "TopsimProofs.Bridge.Admission", "TopsimProps.C07Traj"],
-        "streams": [("default", 32, 500), ("sequential", 16, 200), ("overcommit", 8, 60), ("edge", 24, 400), ("hotwait", 8, 100), ("tiering", 8, 100), ("tierback", 8, 100)],
+        "streams": [("default", 32, 500), ("sequential", 16, 200), ("overcommit", 8, 60), ("edge", 40, 400), ("hotwait", 8, 100), ("tiering", 8, 100), ("tierback", 8, 100)],
         "monitor": ["C07"],
     },
     "C08": {
@@ -95,7 +95,7 @@ PROPS = {
     },
     "C15": {
         "title": "The delay model only lengthens, deterministically, and is reported",
-        "lean": ["TopsimProps.C15"],
+        "lean": ["TopsimProps.C15", "TopsimProps.C15Traj"],
         "streams": [("delays", 24, 300)],
         "direct": ["c15", "c06"],
         "monitor": ["C15"],
